@@ -669,6 +669,36 @@ def stage_calls(prog: Program, f: Func, names: Iterable[str], *, attr_fallback: 
     return out
 
 
+def helper_views(prog: Program, f: Func, expr: ast.AST, roles: dict[str, str], depth: int = 2, _seen: frozenset = frozenset()) -> list[tuple[Func, ast.AST, dict[str, str]]]:
+    """[(function, expression, roles)]: `expr` as written in `f` and - `extract function` refactorings - the
+    return expressions of every program function called inside it (locals followed, the callee resolved to exactly
+    one definition, `depth` levels).  `roles` maps a role name to the local / parameter of `f` that plays it; in a
+    helper the role is played by the parameter bound to exactly that name (absent when none is)."""
+    out = [(f, expr, dict(roles))]
+    if depth <= 0:
+        return out
+    for o in origins(f, expr) or [expr]:
+        for x in [o, *walk_no_nested(o)]:
+            if not isinstance(x, ast.Call):
+                continue
+            qs = rcall(prog, f, x, fanout=False)
+            h = prog.functions.get(qs[0]) if len(qs) == 1 else None
+            if h is None or h is f or h.is_abstract or h.qualname in _seen:
+                continue
+            b = bind_args(h.node, x, bound=h.cls is not None)
+            if b is None:
+                continue
+            r2: dict[str, str] = {}
+            for role, nm in roles.items():
+                for pn, a in b.items():
+                    if all(isinstance(strip(y), ast.Name) and strip(y).id == nm for y in (origins(f, a) or [a])):
+                        r2[role] = pn
+            for r in h.body_nodes():
+                if isinstance(r, ast.Return) and r.value is not None:
+                    out += helper_views(prog, h, r.value, r2, depth - 1, _seen | {f.qualname})
+    return out
+
+
 def lock_sites(p: Program, f: Func, depth: int = 2):
     """[(ast node evaluated at the acquisition, helper|None)]: `enter_async_context(x.lock)`, `async with x.lock`,
     `x.lock.acquire()`, directly or inside a helper of the same module."""
@@ -1150,3 +1180,226 @@ def is_version_increment(n: ast.AST) -> bool:
                 if isinstance(a, ast.Attribute) and a.attr == "version" and unparse(a.value) == unparse(n.targets[0].value) and isinstance(b, ast.Constant) and b.value == 1:
                     return True
     return False
+
+
+# ------------------------------------------------------------------ the `is this job already being recovered` decision
+#
+# `RollbackFailureManager._synchronize_workflows` decides per request between the hand-over (the job is being
+# re-executed by another recovery) and the rollback (`_update_request`).  C17.R2 / C19.R5 / C19.R7 need the test that
+# takes the decision, its two outcomes, the job it is about and - C19.R7 - every `is_recovering()` evaluation its
+# value comes from.  The value may reach the test directly (`if await self.is_recovering(x)`), through a boolean
+# local, through a helper returning it, or through a *snapshot*: membership in a collection filtered by
+# `is_recovering` (comprehension or loop + add), a mapping name -> answer, possibly handed over as a parameter
+# (the call sites are followed through the whole-program call index).
+
+
+class RecDecision:
+    """test: CFG test node of the synchronising function; cond: the condition it evaluates (boolean locals
+    substituted); atom: the sub-expression of `cond` carrying the answer; yes / no: outcome kinds ('t'/'f') that
+    mean `being recovered` / `not being recovered`; job: expression naming the job the answer is about;
+    calls: [(function, is_recovering call)] whose result the answer is; snapshot: the answer is read from a
+    collection computed elsewhere / earlier; traced: False when the test was only identified by what it guards."""
+
+    __slots__ = ("test", "cond", "atom", "yes", "no", "job", "calls", "snapshot", "traced")
+
+    def __init__(self, test, cond, atom, yes, no, job, calls, snapshot, traced):
+        self.test, self.cond, self.atom, self.yes, self.no = test, cond, atom, yes, no
+        self.job, self.calls, self.snapshot, self.traced = job, calls, snapshot, traced
+
+
+def _is_rec_call(e: ast.AST) -> bool:
+    return isinstance(e, ast.Call) and isinstance(e.func, ast.Attribute) and e.func.attr == "is_recovering"
+
+
+def _rec_job_arg(c: ast.Call) -> ast.AST | None:
+    if c.args:
+        return c.args[0]
+    return next((k.value for k in c.keywords if k.arg == "job_name"), None)
+
+
+def _same_text(a: ast.AST | None, b: ast.AST | None) -> bool:
+    return a is not None and b is not None and unparse(strip(a)) == unparse(strip(b))
+
+
+def _uniq_calls(hits):
+    """(call, value) facts, one per call node (`await c` and `c` are reported as two facts of the same value)."""
+    out = {}
+    for c, v in hits:
+        out.setdefault(id(c), (c, v))
+    return list(out.values())
+
+
+_COLL_WRAP = ("set", "frozenset", "list", "tuple", "sorted")
+
+
+def _rec_snapshot(prog: Program, f: Func, coll: ast.AST, depth: int, seen: frozenset = frozenset()):
+    """`coll` (an expression of `f`) denotes a collection of job names selected by `is_recovering`, or a mapping
+    job name -> answer: ('set' | 'map', polarity of membership, [(function, call)]) - None when it is not."""
+    kinds, pols, calls = set(), set(), []
+
+    def merge(r):
+        if r is None:
+            return False
+        kinds.add(r[0])
+        pols.add(r[1])
+        calls.extend(r[2])
+        return True
+
+    c0 = strip(coll)
+    filled = isinstance(c0, ast.Name) and (
+        any(isinstance(c.func, ast.Attribute) and isinstance(c.func.value, ast.Name) and c.func.value.id == c0.id for c in f.calls())
+        or any(isinstance(n, ast.Subscript) and isinstance(n.ctx, ast.Store) and isinstance(n.value, ast.Name) and n.value.id == c0.id for n in f.body_nodes()))
+    srcs = [c0] if filled else (origins(f, coll) or [coll])  # (a local that is fed in place is examined as such, not replaced by its initial value)
+    for o in srcs:
+        o = strip(o)
+        while isinstance(o, ast.Call) and isinstance(o.func, ast.Name) and o.func.id in _COLL_WRAP and len(o.args) == 1 and not prog._is_local(f, o.func.id):
+            o = strip(o.args[0])
+        if isinstance(o, (ast.SetComp, ast.ListComp, ast.GeneratorExp)) and len(o.generators) == 1:
+            hit = _uniq_calls([(strip(e), v) for cond in o.generators[0].ifs for e, v in implied(cond, True) if _is_rec_call(strip(e))])
+            if len(hit) != 1 or not _same_text(o.elt, _rec_job_arg(hit[0][0])):
+                return None
+            merge(("set", hit[0][1], [(f, hit[0][0])]))
+        elif isinstance(o, ast.DictComp) and len(o.generators) == 1 and _is_rec_call(strip(o.value)) and not o.generators[0].ifs:
+            c = strip(o.value)
+            if not _same_text(o.key, _rec_job_arg(c)):
+                return None
+            merge(("map", True, [(f, c)]))
+        elif isinstance(o, ast.Name) and o.id not in seen:
+            ds = defs_of(f, o.id)
+            if ds and all(d.kind == "param" for d in ds) and not filled:
+                if depth <= 0:
+                    return None
+                sites = callers_of(prog, [f.qualname])
+                if not sites:
+                    return None
+                for g_, c in sites:
+                    b = bind_args(f.node, c, bound=f.cls is not None)
+                    if b is None or o.id not in b or not merge(_rec_snapshot(prog, g_, b[o.id], depth - 1)):
+                        return None
+            else:
+                # a local filled in a loop: `<x> = set()` ... `if await self.is_recovering(n): <x>.add(n)`
+                g = f.cfg
+                feeds = [c for c in f.calls() if isinstance(c.func, ast.Attribute) and isinstance(c.func.value, ast.Name) and c.func.value.id == o.id
+                         and c.func.attr in ("add", "append", "discard", "remove", "update", "extend", "insert", "__setitem__", "setdefault")]
+                stores = [n for n in f.body_nodes() if isinstance(n, ast.Subscript) and isinstance(n.ctx, ast.Store) and isinstance(n.value, ast.Name) and n.value.id == o.id]
+                if not feeds and not stores:
+                    return None
+                for d in ds:
+                    v = strip(d.value) if d.value is not None else None
+                    empty = (isinstance(v, (ast.List, ast.Set, ast.Tuple)) and not v.elts) or (isinstance(v, ast.Dict) and not v.keys) or (
+                        isinstance(v, ast.Call) and isinstance(v.func, ast.Name) and v.func.id in ("set", "list", "dict") and not v.args and not v.keywords)
+                    if d.kind != "assign" or d.index is not None or not empty:
+                        return None
+                for c in feeds:
+                    if c.func.attr not in ("add", "append") or len(c.args) != 1:
+                        return None
+                    hit = _uniq_calls([(strip(e), v) for i in g.node_containing(c) for e, v in path_facts(g, i) if _is_rec_call(strip(e))])
+                    if len(hit) != 1 or not _same_text(c.args[0], _rec_job_arg(hit[0][0])):
+                        return None
+                    merge(("set", hit[0][1], [(f, hit[0][0])]))
+                for s in stores:
+                    par = parent(s)
+                    v = strip(par.value) if isinstance(par, ast.Assign) and len(par.targets) == 1 else None
+                    if v is None or not _is_rec_call(v) or not _same_text(s.slice, _rec_job_arg(v)):
+                        return None
+                    merge(("map", True, [(f, v)]))
+        else:
+            return None
+    if len(kinds) != 1 or len(pols) != 1 or not calls:
+        return None
+    return next(iter(kinds)), next(iter(pols)), calls
+
+
+def _rec_source(prog: Program, f: Func, atom: ast.AST, depth: int = 2):
+    """What the truth of `atom` (an atom of a condition of `f`) says about `the job is being recovered`:
+    (polarity, job expression, [(function, is_recovering call)], snapshot?) or None."""
+    a = strip(atom)
+    if _is_rec_call(a):
+        return True, _rec_job_arg(a), [(f, a)], False
+    if isinstance(a, ast.Name):
+        ds = defs_of(f, a.id)
+        vals = [strip(d.value) for d in ds if d.value is not None]
+        if ds and all(d.kind in ("assign", "walrus") and d.index is None for d in ds) and vals and all(_is_rec_call(v) for v in vals):
+            jobs = {unparse(strip(_rec_job_arg(v))) for v in vals if _rec_job_arg(v) is not None}
+            return True, (_rec_job_arg(vals[0]) if len(jobs) == 1 else None), [(f, v) for v in vals], False
+        return None
+    if isinstance(a, ast.Compare) and len(a.ops) == 1 and isinstance(a.ops[0], (ast.In, ast.NotIn)):
+        snap = _rec_snapshot(prog, f, a.comparators[0], depth)
+        if snap is not None and snap[0] == "set":
+            pol = snap[1] if isinstance(a.ops[0], ast.In) else (not snap[1])
+            return pol, a.left, snap[2], True
+        return None
+    if isinstance(a, ast.Subscript):
+        snap = _rec_snapshot(prog, f, a.value, depth)
+        if snap is not None and snap[0] == "map":
+            return True, a.slice, snap[2], True
+        return None
+    if isinstance(a, ast.Call) and isinstance(a.func, ast.Attribute) and a.func.attr == "get" and a.args:
+        snap = _rec_snapshot(prog, f, a.func.value, depth)
+        if snap is not None and snap[0] == "map":
+            return True, a.args[0], snap[2], True
+        return None
+    if isinstance(a, ast.Call) and depth > 0:
+        # an extracted predicate: every return of the (single) resolved program function is an is_recovering answer
+        qs = rcall(prog, f, a, fanout=False)
+        h = prog.functions.get(qs[0]) if len(qs) == 1 else None
+        if h is not None and h is not f and not h.is_abstract:
+            b = bind_args(h.node, a, bound=h.cls is not None)
+            rets = [r.value for r in h.body_nodes() if isinstance(r, ast.Return)]
+            if b is not None and rets and all(r is not None for r in rets):
+                calls, job = [], None
+                for r in rets:
+                    for o in origins(h, r) or [r]:
+                        o = strip(o)
+                        if not _is_rec_call(o):
+                            return None
+                        calls.append((h, o))
+                        j = _rec_job_arg(o)
+                        if isinstance(j, ast.Name) and j.id in b:
+                            job = b[j.id]
+                return True, job, calls, False
+    return None
+
+
+def recovering_decision(prog: Program, f: Func, update_qualname: str) -> RecDecision:
+    """The test of `f` (= _synchronize_workflows) that separates the hand-over from the rollback.  Raises
+    Uninterpretable when no single such test exists or its two outcomes cannot be told apart."""
+    g = f.cfg
+    found = []
+    for n in g.nodes.values():
+        if n.kind != "test" or n.ast is None:
+            continue
+        cond = effective_test(f, n.ast)
+        for a in _atoms(cond, []):
+            src = _rec_source(prog, f, a)
+            if src is not None:
+                found.append((n, cond, a, src))
+    # a test that only selects what goes into a snapshot read by another test is not the decision
+    fed = {id(c) for _n, _c, _a, src in found if src[3] for _h, c in src[2]}
+    found = [x for x in found if x[3][3] or not all(id(c) in fed for _h, c in x[3][2])]
+    if len(found) > 1:
+        raise Uninterpretable(f"expected one is_recovering test in {f.name}, found {len(found)}")
+    if found:
+        n, cond, a, (pol, job, calls, snap) = found[0]
+        yes = outcomes_when(cond, lambda x: x is a, pol)
+        no = outcomes_when(cond, lambda x: x is a, not pol)
+        if not yes or not no or len(yes) != 1 or len(no) != 1 or yes == no:
+            raise Uninterpretable(f"cannot separate the two outcomes of the is_recovering test `{unparse(cond)[:80]}` in {f.name}")
+        return RecDecision(n, cond, a, next(iter(yes)), next(iter(no)), job, calls, snap, True)
+    # no is_recovering answer reaches any test: the decision is the innermost test that lets exactly one of
+    # its outcomes reach the counting call
+    upd = [c for c in f.calls() if resolves_to(prog, f, c, [update_qualname], attr_fallback=False)]
+    uids = [i for c in upd for i in g.node_containing(c)]
+    best = None
+    for n in g.nodes.values():
+        if n.kind != "test" or n.ast is None or not uids or not all(g.dominates(n.id, u) for u in uids):
+            continue
+        rt, rf = region(g, n.id, "t"), region(g, n.id, "f")
+        in_t, in_f = all(u in rt for u in uids), all(u in rf for u in uids)
+        if in_t != in_f and not any(u in (rf if in_t else rt) for u in uids):
+            if best is None or g.dominates(best[0].id, n.id):
+                best = (n, "f" if in_t else "t", "t" if in_t else "f")
+    if best is None:
+        raise Uninterpretable(f"expected one is_recovering test in {f.name}, found 0")
+    n, yes, no = best
+    return RecDecision(n, effective_test(f, n.ast), None, yes, no, None, [], False, False)
